@@ -3,7 +3,7 @@
    Gallina functions (total by construction); that the code terminates like the
    model is what the correspondence checks (every call under an alarm). *)
 From Coq Require Import List Bool Arith.
-From PM Require Import Model.Data Model.Mark Model.Tree Model.Diff Proofs.DiffProofs.
+From PM Require Import Model.Data Model.Mark Model.Tree Model.Diff Spec.DiffSpec Proofs.DiffProofs Proofs.TokenInj Proofs.DiffPositions.
 Import ListNotations.
 
 (* the object-identity fast path (shared sub-trees after an edit) never changes the answer *)
@@ -23,8 +23,22 @@ Theorem C20_self_diff_none : forall s o a pos, find_diff_start s o a a pos = Non
 Proof. exact fds_refl. Qed.
 Print Assumptions C20_self_diff_none.
 
-(* the partial statement: that a reported position equals the length of the common
-   token prefix (and the end-direction analogues) is evaluated on every generated
-   pair by Corr.C20.holds; it is not yet a theorem. *)
-Definition C20_full_statement_pending : Prop :=
-  forall s a b p, find_diff_start s never a b 0 = Some p -> True.
+(* the reported position is the true first difference: for fragments in normal form (no empty text, no
+   adjacent text nodes with == marks, leaf nodes without content: [canon_list]) whose text consists of Unicode
+   code points that are not lone surrogates ([ok_list]), under any admissible sharing oracle, the position
+   find_diff_start reports is the start position plus the length of the longest common prefix of the two
+   markup-annotated token sequences (Spec/DiffSpec.v: the close token carries its node's markup, text is one
+   token per UTF-16 unit) *)
+Theorem C20_start_position_is_common_prefix : forall s (o : node -> node -> bool), sound_oracle o ->
+  forall a b pos p,
+  canon_list s a = true -> canon_list s b = true -> ok_list a = true -> ok_list b = true ->
+  find_diff_start s o a b pos = Some p ->
+  pos <= p /\ p - pos = lcp (aftoks s a) (aftoks s b).
+Proof.
+  intros s o Ho a b pos p Ca Cb Oa Ob H. rewrite (diff_start_oracle_irrelevant s o Ho) in H.
+  exact (find_diff_start_position s a b pos p Ca Cb Oa Ob H).
+Qed.
+Print Assumptions C20_start_position_is_common_prefix.
+
+(* still evaluated per case by Corr.C20.holds: the end-direction analogue (find_diff_end reports the pair of
+   positions after which the two sequences agree). *)
